@@ -536,7 +536,7 @@ def cases(ctx):
                 else:
                     x, n = rand_msg(rng, False)
                     m = "%014X" % x
-                t += rng.uniform(0, 0.5)
+                t += rng.choice((0.0, 0.0, rng.uniform(0, 0.5)))     # receivers with a coarse clock stamp several frames alike
                 b.append([m, t])
             batches.append(b)
         yield "netsource", {"batches": batches}
@@ -551,7 +551,7 @@ def cases(ctx):
             b = []
             for _ in range(min(rng.choice((1, 7, 60, 250, 900)), total - n_done)):
                 x = bits.with_pi((rng.choice((20, 21)) << 83) | rng.fill(83), 112, rng.fill(24))
-                t += rng.uniform(0, 0.01)
+                t += rng.choice((0.0, rng.uniform(0, 0.01)))
                 b.append(["%028X" % x, t])
                 n_done += 1
             if early_adsb and not batches:
